@@ -554,12 +554,8 @@ class DPRNNBase(RenameParamsMixin, nn.Module):
 
             # Collect last states for all sequences
             seq_lengths = compute_seq_lengths(batch_sizes)
-            h_last = torch.zeros(max_batch_size, self.hidden_size)  # [B, H]
-            c_last = (
-                torch.zeros(max_batch_size, self.hidden_size)
-                if self.has_cell_state
-                else None
-            )
+            h_last = torch.zeros_like(h_0)  # [B, H], dtype and device of the layer
+            c_last = torch.zeros_like(h_0) if self.has_cell_state else None
             for i, seq_len in enumerate(seq_lengths):
                 h_last[i, :] = h_temp[seq_len - 1][i, :]
                 if self.has_cell_state:
